@@ -34,6 +34,12 @@ func init() {
 		"\t\t// TODO: TCPConn.WriteClose() to avoid sending an RST to the client.\n\tif req != nil {\n\t\tpanic(\"martian: request without error\")\n\t}\n\t\treturn nil, errClose", "C03.R6", "panic")
 	mut("C03", "fatal-in-warning", "proxyutil/proxyutil.go",
 		"func Warning(header http.Header, err error) {\n", "func Warning(header http.Header, err error) {\n\tif header == nil {\n\t\tpanic(\"nil header\")\n\t}\n", "C03.R6", "Warning")
+	mut("C03", "nilable-operror-addr-dereferenced", "proxy.go",
+		"\t\tlog.Errorf(\"martian: failed to round trip: %v\", err)\n",
+		"\t\tlog.Errorf(\"martian: failed to round trip: %v\", err)\n\t\tif oe, ok := err.(*net.OpError); ok {\n\t\t\tlog.Errorf(\"martian: peer %s\", oe.Addr.String())\n\t\t}\n", "C03.R6", "dereference of")
+	twin("C03", "nilable-operror-addr-tested", "proxy.go",
+		"\t\tlog.Errorf(\"martian: failed to round trip: %v\", err)\n",
+		"\t\tlog.Errorf(\"martian: failed to round trip: %v\", err)\n\t\tif oe, ok := err.(*net.OpError); ok && oe.Addr != nil {\n\t\t\tlog.Errorf(\"martian: peer %s\", oe.Addr.String())\n\t\t}\n")
 	mut("C03", "enum-gains-unhandled-constant", "h2/processor.go",
 		"\tServerToClient\n)", "\tServerToClient\n\t// Both is for diagnostics.\n\tBoth\n)", "C03.R6", "ForDirection")
 	twin("C03", "enum-switch-as-if-chain", "h2/processor.go",
